@@ -1,7 +1,10 @@
 //! Thin layer over `polytune::verif` (feature `hooks`), so the rest of the harness compiles
-//! with and without the hooked engine.
+//! with and without the hooked engine. Probe values are recorded in a thread-local list so that
+//! monitors *and* dynamic adversaries (same thread, same poll) can read them.
 #[cfg(feature = "hooks")]
 pub use polytune::verif as pv;
+
+use std::cell::RefCell;
 
 pub fn set_current_party(p: Option<usize>) {
     #[cfg(feature = "hooks")]
@@ -17,26 +20,48 @@ pub struct ProbeRec {
     pub party: Option<usize>,
     pub index: usize,
     pub value: Vec<u8>,
-    /// logical time (net clock) is not known here; order of arrival is kept
     pub seq: usize,
+    /// number of messages sent (by anyone) when the probe fired - set by the runner's clock fn
+    pub msgs_before: usize,
 }
 
-use std::cell::RefCell;
-use std::rc::Rc;
+thread_local! {
+    static PROBES: RefCell<Vec<ProbeRec>> = const { RefCell::new(Vec::new()) };
+    static MSG_CLOCK: std::cell::Cell<usize> = const { std::cell::Cell::new(0) };
+}
 
-/// Installs a recording probe sink on this thread; returns the shared record list.
-pub fn record_probes() -> Rc<RefCell<Vec<ProbeRec>>> {
-    let recs: Rc<RefCell<Vec<ProbeRec>>> = Rc::new(RefCell::new(vec![]));
+/// Called by the network whenever a message has been sent (logical clock for probes).
+pub fn tick_msg_clock(n: usize) {
+    MSG_CLOCK.with(|c| c.set(n));
+}
+
+/// Starts recording probes on this thread (clears earlier records).
+pub fn record_probes() {
+    PROBES.with(|p| p.borrow_mut().clear());
+    MSG_CLOCK.with(|c| c.set(0));
     #[cfg(feature = "hooks")]
-    {
-        let r = recs.clone();
-        pv::install_probe_sink(Some(Box::new(move |site, party, index, value| {
-            let mut v = r.borrow_mut();
+    pv::install_probe_sink(Some(Box::new(move |site, party, index, value| {
+        PROBES.with(|p| {
+            let mut v = p.borrow_mut();
             let seq = v.len();
-            v.push(ProbeRec { site, party, index, value: value.to_vec(), seq });
-        })));
-    }
-    recs
+            let msgs_before = MSG_CLOCK.with(|c| c.get());
+            v.push(ProbeRec { site, party, index, value: value.to_vec(), seq, msgs_before });
+        });
+    })));
+}
+
+pub fn probes_snapshot() -> Vec<ProbeRec> {
+    PROBES.with(|p| p.borrow().clone())
+}
+
+/// The global key of `party` as probed in the current execution.
+pub fn delta_of(party: usize) -> Option<u128> {
+    PROBES.with(|p| {
+        p.borrow()
+            .iter()
+            .find(|r| r.site == "delta" && r.index == party)
+            .map(|r| u128::from_le_bytes(r.value[..16].try_into().unwrap()))
+    })
 }
 
 pub fn clear_probes() {
@@ -53,3 +78,5 @@ pub fn install_tap(t: Option<TapFn>) {
     #[cfg(not(feature = "hooks"))]
     let _ = t;
 }
+
+pub const HOOKS_ON: bool = cfg!(feature = "hooks");
